@@ -11,6 +11,7 @@ operations that raise), and every start world (any class table that consists of 
 already inside any stack of journals).
 -/
 import IrVerif.Lemmas.Journal
+import IrVerif.Lemmas.JournalKernel
 namespace IrVerif.Journal
 
 variable {σ : Type}
@@ -222,5 +223,185 @@ example : expectedFor (fun o => o + 100) 0 false
     [.start 21 5, .finish 21 5 (.ret .none), .enter 0, .start 33 7, .finish 33 7 (.ret .none), .exit 0,
      .start 26 5, .finish 26 5 (.ret .none)] = [mkEntry 33 107] := by
   simp [expectedFor, kindOf, slots, targetOf]
+
+/-! ## round 3 -/
+
+/-! ### the installed table and the order of effects in a wrapper -/
+
+/-- the two tables describe the same 43 slots: a constructor slot is installed by assigning
+    `__init__`, a setter wrapper (and the `Node.graph` setter, which uses the method wrapper) through a
+    new `property`, everything else by plain assignment; only `TensorBase.__init__` and `Graph.sort`
+    have a `details` expression that is `None`.  (That the keys, classes, attributes and `details`
+    texts are those of _wrappers.py is checked on every run: `journal.meta` / `journal.details`.) -/
+theorem C20_slot_table :
+    slotMeta.length = nSlots ∧ nSlots = 43 ∧
+    (∀ k : Fin 43, ((metaOf k).install = .ctor ↔ kindOf k = .init) ∧
+      (kindOf k = .setter → (metaOf k).install = .propSetter) ∧
+      (kindOf k = .container → (metaOf k).install = .method) ∧
+      ((metaOf k).details = .none ↔ (k.val = 0 ∨ k.val = 26))) := by
+  refine ⟨by decide, by decide, ?_⟩
+  decide
+
+/-- **order of effects, for every slot** (computed by running `runImpl`, the function all other
+    theorems are about, on a probe configuration): the `details` expression is evaluated before the
+    original for every wrapper except the constructor wrapper; the entry is written after the
+    original returned, so an original that raises leaves no entry; method and container wrappers hand
+    the result back, constructor and setter wrappers return None; the entry is about `self` except for
+    container wrappers (owner). -/
+theorem C20_wrapper_order (k : Nat) :
+    detailsBefore k = (kindOf k != .init) ∧ recordAfter k = true ∧
+    returnsResult k = (kindOf k == .method || kindOf k == .container) ∧
+    recordsSelf k = (kindOf k != .container) := by
+  cases h : kindOf k <;>
+    simp [detailsBefore, recordAfter, returnsResult, recordsSelf, probeRun, probeCfg, dispatch, runImpl,
+      runOrig, runProg, enterRaw, initialWorld, pristine, emit, record, upd, mkEntry, targetOf, h]
+
+/-! ### no strong reference -/
+
+/-- **C20_no_strong_ref**: the entry that `Journal.record` builds — all eight fields of the dataclass,
+    for every slot, target, class, clock value, stack and environment of `repr`s the `details`
+    expression is evaluated on — holds no strong reference to any instance: the object is designated by
+    the weak reference and by its integer id only, `details` is a string (or None), `class_` a class,
+    the stack frames strings and line numbers. -/
+theorem C20_no_strong_ref (k : Nat) (t : Obj) (className : String) (clock : Nat) (stack : List Frame)
+    (e : DEnv) :
+    (recordSlot k t className clock stack e).fields.flatMap (fun p => p.2.strong) = [] := by
+  simp [recordSlot, recordFull, EntryFull.fields, FVal.strong]
+
+/-- the same for any call of `record`, including `record(None, ...)` -/
+theorem C20_no_strong_ref_record (operation : String) (obj : Option Obj) (className : String)
+    (clock : Nat) (stack : List Frame) (details : Option String) :
+    (recordFull operation obj className clock stack details).fields.flatMap (fun p => p.2.strong) = [] := by
+  simp [recordFull, EntryFull.fields, FVal.strong]
+
+/-- the full entry projects onto the `Entry` of the run theorems (`mkEntry`), whose handle is weak -/
+theorem C20_entry_core (k : Nat) (t : Obj) (className : String) (clock : Nat) (stack : List Frame)
+    (e : DEnv) :
+    (recordSlot k t className clock stack e).core k = some (mkEntry k t) ∧ (mkEntry k t).strong = [] := by
+  simp [recordSlot, recordFull, EntryFull.core, mkEntry, Entry.strong]
+
+/-- and no run adds anything else: after any block of user code, from a world whose entries are all
+    weak, every entry of every journal is weak -/
+theorem C20_no_strong_ref_run (cfg : Cfg σ) (fuel : Nat) (b : Block σ) (w : World σ)
+    (h : ∀ i, heldBy (w.journals i) = []) :
+    ∀ i, heldBy ((runBlock cfg fuel b w).1.journals i) = [] :=
+  block_allWeak cfg fuel b w h
+
+/-- a field that did hold an instance would be seen by `strong` (non-vacuity of the statements above) -/
+example : (FVal.inst 7).strong = [7] ∧ (FVal.weak (some 7)).strong = [] := by simp [FVal.strong]
+
+/-- the `details` strings are what the lambdas of _wrappers.py print -/
+example : detailsOf 17 { argRepr := fun i => if i = 0 then some "Value(x)" else none } =
+    some "replacement=Value(x), replace_graph_outputs=False" := by
+  simp [detailsOf, metaOf, slotMeta, DSpec.eval, Piece.eval, String.join]
+
+/-! ### `__exit__` interrupted by a failing restore step (observation D470; outside the property) -/
+
+/-- `C20_restore` assumes that the 43 assignments of `restore_ir_classes` do not raise.  If step `n`
+    does, exactly the slots before `n` are restored; the others, the current journal and the active
+    flag stay. -/
+theorem C20_exit_fault (j n : Nat) (w : World σ) (t : Table) (h : (w.journals j).captured = some t) :
+    (∀ k, k < n → (exitFail j n w).table k = t k) ∧
+    (∀ k, n ≤ k → (exitFail j n w).table k = w.table k) ∧
+    (exitFail j n w).current = w.current ∧ (exitFail j n w).journals = w.journals := by
+  refine ⟨fun k hk => by simp [exitFail, h, hk], fun k hk => ?_, by simp [exitFail, h], by simp [exitFail, h]⟩
+  have : ¬ k < n := by omega
+  simp [exitFail, h, this]
+
+/-- the concrete hazard: a journal whose `__exit__` failed at step 20 leaves slots 20.. wrapped and
+    stays the current, active journal -/
+theorem C20_exit_fault_leaves_wrapped :
+    let w := exitFail 0 20 (enterRaw 0 (initialWorld ()))
+    w.table 19 = .orig 19 ∧ w.table 20 = .wrap 0 20 (.orig 20) ∧ w.current = some 0 ∧
+      (w.journals 0).active = true := by
+  simp [exitFail, enterRaw, initialWorld, pristine, upd]
+
+/-- calling `__exit__` again completes the restoration: the state is the one a successful exit
+    would have produced -/
+theorem C20_exit_retry (j n : Nat) (w : World σ) : exit j (exitFail j n w) = exit j w := by
+  unfold exit exitFail
+  cases h : (w.journals j).captured with
+  | none => simp [h]
+  | some t => simp [h]
+
+/-- a journal held open by a generator that is closed (GeneratorExit thrown at the `yield`),
+    collected, or thrown into: an exit by exception, restored like every other (instance of
+    `C20_restore`) -/
+theorem C20_restore_generator_close (cfg : Cfg σ) (fuel j e : Nat) (body : Block σ) (w : World σ) :
+    (runBlock cfg fuel (.withJ j (.seq body (.op (.done (.raise e))))) w).1.table = w.table :=
+  (C20_restore cfg fuel _ w).1
+
+/-- ... but a generator lets exits happen out of order: journal 0 entered (generator suspended),
+    journal 1 entered, generator closed (exit 0), exit 1.  The classes are left wrapped by the
+    wrappers of journal 0, which is no longer active.  This is not "properly nested" and outside the
+    property; `__exit__` does not check that it leaves the innermost journal. -/
+theorem C20_improper_nesting_not_restored :
+    let w := runCtl [(0, true), (1, true), (0, false), (1, false)] (initialWorld ())
+    w.table 0 = .wrap 0 0 (.orig 0) ∧ (w.journals 0).active = false ∧ (w.journals 1).active = false := by
+  simp [runCtl, enter, enterRaw, exit, initialWorld, pristine, upd]
+
+/-! ### the journal model instantiated with the C01 kernel -/
+
+/-- without any journal, the instantiated configuration computes the kernel semantics: the world is
+    `Kernel.runAny`, the outcomes are the kernel's, and the original functions executed are the
+    call trees `callTree` of the successive calls, in order -/
+theorem C20_kernel_plain (f : Nat) (kb : KBlk) :
+    let r := runBlock kCfg (f + 3) (strip kb.toBlock) (initialWorld { w := Kernel.World.empty })
+    r.1.ir.w = Kernel.runAny kb.allOps ∧ r.1.log = histLog Kernel.World.empty kb.allOps ∧
+      r.1.trace = histEvs Kernel.World.empty kb.allOps ∧ r.2 = none := by
+  obtain ⟨reg', h⟩ := run_kblk_plain f kb (initialWorld { w := Kernel.World.empty }) rfl
+  simp only [h]
+  simp [advH, initialWorld, histWorld, Kernel.runAny]
+
+/-- **C20_transparent_kernel**: every history of the C01 kernel alphabet (single and composite
+    calls, accepted or rejected), with `with journal:` blocks around any parts of it, nested to any
+    depth (no journal object entered again while active), run with nesting bound at least 3 — the
+    depth of the deepest call tree — from the start of the program:
+    * leaves exactly the kernel world of the un-journaled history (`Kernel.runAny`),
+    * every call has the kernel's outcome (completed calls return None: the kernel has no return
+      values), no exception leaves the history,
+    * the original functions executed are the instantiated call trees `callTree`, in program order,
+    * every journal's entries are exactly `expectedFor` of what executed: one entry per instrumented
+      call that completed while the journal was entered, in order of completion (a callee before its
+      caller: the wrappers record after the original returned), nothing for a rejected call,
+    * and the class table and the current journal are as at the start. -/
+theorem C20_transparent_kernel (f : Nat) (kb : KBlk) (hn : NoReentry kb.toBlock) :
+    let r := runBlock kCfg (f + 3) kb.toBlock (initialWorld { w := Kernel.World.empty })
+    r.1.ir.w = Kernel.runAny kb.allOps ∧ r.1.log = histLog Kernel.World.empty kb.allOps ∧
+      r.2 = none ∧ r.1.trace.filter isCall = histEvs Kernel.World.empty kb.allOps ∧
+      (∀ j, (r.1.journals j).entries = expectedFor kOwner j false r.1.trace) ∧
+      r.1.table = pristine ∧ r.1.current = none := by
+  intro r
+  have ht := C20_transparent_from_start kCfg procNone_kCfg detailsOk_kCfg detailsPure_kCfg (f + 3)
+    kb.toBlock { w := Kernel.World.empty } hn
+  have hp := C20_kernel_plain f kb
+  simp only [] at ht hp
+  obtain ⟨hir, hlog, hexc, hcalls⟩ := ht
+  obtain ⟨pw, plog, ptr, pexc⟩ := hp
+  refine ⟨by rw [← pw]; exact congrArg KState.w hir, by rw [← plog]; exact hlog, by rw [← pexc]; exact hexc,
+    ?_, ?_, ?_, ?_⟩
+  · rw [hcalls, ptr, isCall_histEvs]
+  · intro j
+    obtain ⟨evs, htr, he⟩ := C20_entries kCfg detailsOk_kCfg (f + 3) j kb.toBlock
+      (initialWorld { w := Kernel.World.empty }) chain_pristine (fun _ => rfl) rfl
+    have hevs : evs = r.1.trace := htr.symm
+    rw [hevs] at he
+    exact he
+  · exact (C20_restore kCfg (f + 3) kb.toBlock _).1
+  · exact (C20_restore kCfg (f + 3) kb.toBlock _).2
+
+/-- non-vacuity: a history (a value, a node, a graph that takes the node and names it and its
+    output, a rejected call) from its second call on inside two nested journals: the inner journal
+    gets the eleven entries, callee before caller -/
+example :
+    let kb : KBlk := .seq (.ops [.one (.newValue (some "x"))])
+      (.withJ 0 (.withJ 1 (.ops [.one (.newNode "Add" none [some 0] none none none),
+        .one (.newGraph [0] [1] [0] []), .one (.append 0 0), .one (.resizeInputs 0 (-1))])))
+    NoReentry kb.toBlock ∧
+    ((runBlock kCfg 3 kb.toBlock (initialWorld { w := Kernel.World.empty })).1.journals 1).entries.map
+      (fun e => (e.slot, e.objectId)) =
+      [(12, 8), (1, 1), (34, 2), (34, 2), (2, 1), (13, 8), (11, 1), (22, 2), (19, 2), (11, 1), (21, 2)] := by
+  intro kb
+  refine ⟨by simp [kb, KBlk.toBlock, histBlock, NoReentry, journalsOf], by decide⟩
 
 end IrVerif.Journal
